@@ -169,6 +169,15 @@ CHECKS = {
             "in dendrogram order, distances recomputed by TLC; linkage / clusters = SciPy on the spec-checked vector) are validated by TraceSummaries.tla.",
             "Trusted: TLC; matplotlib / seaborn / logomaker rendering (only artist data are read back); SciPy linkage.",
             "TLA+ model checking (TLC) + spec-to-code replay + trace validation of recorded artist data"),
+    "C20": ("DESIGN.md 4/C20",
+            "Session.tla: histories of public calls over an abstract catalogue (classes by read / write set on the module state: owner of the "
+            "parameter block, dict-valued defaults, NumPy generator state); TLC checks HistoryIndependence, DefaultsIntact, ArgsUntouched for all "
+            "histories within the bound and rejects the as-found colour-bar tick leak and two seeded deviations. Every history TLC emits is "
+            "executed in one interpreter with about 100 concrete catalogue calls from every module: arguments deep-compared with snapshots, "
+            "defaults / parameter block projected and compared with the model's mod, canonicalised result compared with the same call alone in a "
+            "fresh process; the recorded session is validated by TraceSession.tla.",
+            "Trusted: TLC; the canonicaliser (floats to 9 significant digits, figures to artist data); one representative argument set per catalogue entry.",
+            "TLA+ model checking of call histories (TLC) + replay of histories into one interpreter against fresh-process results + trace validation"),
 }
 
 NOT_YET = {
